@@ -564,8 +564,19 @@ class Proc(object):
         if isinstance(f, ast.Name) and f.id in env.vars and isinstance(env.vars[f.id][1], tuple) and env.vars[f.id][1][0] == "Rec":
             m = self.spec.get("methods", {}).get((env.vars[f.id][1][1], "__call__"))
             if m and len(m[1]) == len(e.args):
-                args = [self.coerce(*self.expr(a, env), w) for a, w in zip(e.args, m[1])]
+                # f(*xs): the items of xs are the arguments - the operation takes the list
+                args = [self.coerce(*self.expr(a.value if isinstance(a, ast.Starred) else a, env), w) for a, w in zip(e.args, m[1])]
                 return ("(%s %s %s)" % (m[0], env.vars[f.id][0], " ".join(args)), m[2])
+        # a method of a helper object whose class is translated: obj.method(args) is the translated method with obj as its `self`
+        if isinstance(f, ast.Attribute) and isinstance(f.value, ast.Name) and f.value.id in env.vars and f.value.id not in ("self", "cls") \
+                and isinstance(env.vars[f.value.id][1], tuple) and env.vars[f.value.id][1][0] == "Rec" \
+                and (env.vars[f.value.id][1][1], f.attr) in self.spec.get("object_methods", {}):
+            target = self.procs[("name", self.spec["object_methods"][(env.vars[f.value.id][1][1], f.attr)])]
+            if target["func"].split(".")[-1] != f.attr or target["params"][0] != ("self", env.vars[f.value.id][1]):
+                raise Untranslatable("object method %s" % f.attr)
+            e2 = ast.copy_location(ast.Call(func=ast.Name(id=f.attr, ctx=ast.Load()), args=[f.value] + list(e.args), keywords=[]), e)
+            sub = dict(target, params=[("self_obj", target["params"][0][1])] + list(target["params"][1:]))
+            return self.call_proc(sub, f.attr, e2.func, e2, env)
         # hasattr(x, "name") on a record: a Boolean field declared for the record
         if fname == "hasattr" and len(e.args) == 2 and isinstance(e.args[1], ast.Constant) and isinstance(e.args[1].value, str):
             t, ty = self.expr(e.args[0], env)
@@ -615,6 +626,10 @@ class Proc(object):
                 raise Untranslatable("arity of %s" % self.seg(f))
             args = [self.coerce(*self.expr(a, env), w) for a, w in zip(e.args, argtys)]
             return ("(%s %s)" % (lname, " ".join(args)), rty)
+        if fname in self.spec.get("star_ops", {}) and len(e.args) == 1 and isinstance(e.args[0], ast.Starred):
+            # f(*xs) of an operation that takes any number of arguments: the operation takes the list
+            lname, aty, rty = self.spec["star_ops"][fname]
+            return ("(%s %s)" % (lname, self.coerce(*self.expr(e.args[0].value, env), aty)), rty)
         if fname in self.spec.get("rec_constructors", {}):
             rec, argtys = self.spec["rec_constructors"][fname]
             if len(e.args) != len(argtys):
@@ -779,6 +794,9 @@ class Proc(object):
                 return ("((Float.toUInt64 %s).toNat : Int)" % t, "Int")   # truncation; agrees with int() for 0 <= x < 2^64
             if ty == "Int":
                 return (t, ty)
+        if fname == "float" and len(e.args) == 1 and isinstance(e.args[0], ast.Constant) and e.args[0].value == "-inf" and self.spec.get("neg_inf"):
+            # float("-inf"): the declared value of the extended number type (spec["neg_inf"]: (lean text, type))
+            return self.spec["neg_inf"]
         if fname == "float" and len(e.args) == 1:
             t, ty = self.expr(e.args[0], env)
             return (self.coerce(t, ty, self.spec.get("float", "Rat")) if ty != self.spec.get("float", "Rat") else t, self.spec.get("float", "Rat"))
@@ -1047,12 +1065,12 @@ class Proc(object):
                 return self.cond(e.values[i], en, kt, lambda en2: go(i + 1, en2))
             return go(0, env)
         # key in d / key not in d  on a local dictionary: the branch where it is present knows d[key]
-        if isinstance(e, ast.Compare) and len(e.ops) == 1 and isinstance(e.ops[0], (ast.In, ast.NotIn)) and isinstance(e.comparators[0], ast.Name) \
-                and e.comparators[0].id in env.vars and isinstance(env.vars[e.comparators[0].id][1], tuple) and env.vars[e.comparators[0].id][1][0] == "AssocL":
-            d, dty = env.vars[e.comparators[0].id]
+        if isinstance(e, ast.Compare) and len(e.ops) == 1 and isinstance(e.ops[0], (ast.In, ast.NotIn)) and isinstance(e.comparators[0], (ast.Name, ast.Attribute)) \
+                and self.seg(e.comparators[0]) in env.vars and isinstance(env.vars[self.seg(e.comparators[0])][1], tuple) and env.vars[self.seg(e.comparators[0])][1][0] == "AssocL":
+            d, dty = env.vars[self.seg(e.comparators[0])]
             key = self.coerce(*self.expr(e.left, env), dty[1])
             n = env.fresh("found")
-            present = env.fact("%s[%s]" % (e.comparators[0].id, self.seg(e.left)), n, dty[2])
+            present = env.fact("%s[%s]" % (self.seg(e.comparators[0]), self.seg(e.left)), n, dty[2])
             a, b = (kt(present), kf(env)) if isinstance(e.ops[0], ast.In) else (kf(present), kt(env))
             return "(match (lookupLast %s %s) with\n| some %s => %s\n| none => %s)" % (d, key, n, a, b)
         # x is None / x is not None
@@ -1094,6 +1112,15 @@ class Proc(object):
                 h, t = env.fresh(e.id + "_head"), env.fresh(e.id + "_tail")
                 en = env.fact(e.id + "[0]", h, ty[1])
                 return "(match %s with\n| [] => %s\n| %s :: %s => %s)" % (lean, kf(env), h, t, kt(en.bind(e.id, "(%s :: %s)" % (h, t), ty).fact(e.id + "[0]", h, ty[1])))
+        if isinstance(e, ast.Attribute):
+            # truthiness of an attribute that holds None or an object (a namedtuple is true whatever its fields hold - declared non-empty records only)
+            try:
+                t0, ty0 = self.expr(e, env)
+            except Untranslatable:
+                t0, ty0 = None, None
+            if isinstance(ty0, tuple) and ty0[0] == "Opt" and isinstance(ty0[1], tuple) and ty0[1][0] == "Rec":
+                n = env.fresh(e.attr)
+                return "(match %s with\n| some %s => %s\n| none => %s)" % (t0, n, kt(env.fact(self.seg(e), n, ty0[1])), kf(env))
         t, ty = self.truth(e, env)
         return "(if %s then %s else %s)" % (t, kt(env), kf(env))
 
@@ -1139,11 +1166,20 @@ class Proc(object):
 
     def block(self, stmts, env, k):
         """lean text for the statement list, continuing with k(env') when it falls through"""
+        if self.spec.get("drop_logging"):
+            # logger.info(..) / .warning / .debug / .error: no effect on what the function computes (also between a message and its raise)
+            stmts = [x for x in stmts if not (isinstance(x, ast.Expr) and isinstance(x.value, ast.Call) and isinstance(x.value.func, ast.Attribute)
+                                              and isinstance(x.value.func.value, ast.Name) and x.value.func.value.id == "logger"
+                                              and x.value.func.attr in ("info", "warning", "debug", "error"))]
         if not stmts:
             return k(env)
         s, rest = stmts[0], stmts[1:]
         if isinstance(s, ast.Expr) and isinstance(s.value, ast.Constant):
             return self.block(rest, env, k)                      # docstring
+        # a raising translated method called inside a list display or as the argument of append: evaluated first (Python's order), its value named
+        hoisted = self.hoist_raising(s, env)
+        if hoisted is not None:
+            return self.block(hoisted + rest, env, k)
         if self.spec.get("drop_logging"):
             # logger = logging.getLogger(..)...  /  logger.info(..) / logger.warning(..): no effect on what the function computes
             if isinstance(s, ast.Assign) and len(s.targets) == 1 and isinstance(s.targets[0], ast.Name) and s.targets[0].id == "logger" \
@@ -1389,6 +1425,42 @@ class Proc(object):
             else:
                 raise Untranslatable("try handler shape")
             return "(match (%s %s) with\n| some %s => %s\n| none => %s)" % (lname, " ".join(args), n, self.wrap_ret(n, rty), other)
+        if isinstance(s, ast.Try) and self.spec.get("exc_classes") and not s.orelse and not s.finalbody and s.handlers \
+                and all(isinstance(h.type, ast.Name) and h.type.id in self.spec["exc_classes"] for h in s.handlers) and self.ret[0] == "Except":
+            # try: <statements calling raising functions of another error type>  except ClassA as a: ... except ClassB: ...
+            # spec["exc_classes"]: exception class -> the inner error constructor it stands for, or "*" for a class every inner error belongs to (a base class).
+            # Handlers are tried in the order written; an error no handler takes would propagate unchanged in Python - here that needs a catch-all (else untranslatable).
+            ev = env.fresh("exc")
+            arms, caught_all = [], False
+            for h in s.handlers:
+                tag = self.spec["exc_classes"][h.type.id]
+                saved = getattr(self, "try_handler", None)
+                self.try_handler = None                      # a raise inside a handler is not caught by this try
+                try:
+                    body = self.block(h.body, env, lambda en: (_ for _ in ()).throw(Untranslatable("handler that falls through")))
+                finally:
+                    self.try_handler = saved
+                arms.append("| %s => %s" % ("_" if tag == "*" else tag, body))
+                if tag == "*":
+                    caught_all = True
+                    break
+            if not caught_all:
+                raise Untranslatable("try without a handler for the remaining errors")
+            dispatch = "(match %s with\n%s)" % (ev, "\n".join(arms))
+            outer = getattr(self, "try_handler", None)
+            self.try_handler = (ev, dispatch)
+
+            def after(en):
+                cur = self.try_handler
+                self.try_handler = outer
+                try:
+                    return self.block(rest, en, k)
+                finally:
+                    self.try_handler = cur
+            try:
+                return self.block(s.body, env, after)
+            finally:
+                self.try_handler = outer
         if isinstance(s, ast.Try):
             # try: X = rec.attr[key]  except KeyError: raise ...   - the look-up declared as partial (try_subscripts): absent key -> the error
             ok = len(s.body) == 1 and isinstance(s.body[0], ast.Assign) and len(s.body[0].targets) == 1 and isinstance(s.body[0].targets[0], ast.Name) \
@@ -1423,9 +1495,34 @@ class Proc(object):
                         pass
             cont = lambda en: self.block(rest, en, k)
             return self.cond(s.test, env, lambda en: self.block(s.body, en, cont), lambda en: self.block(s.orelse, en, cont))
+        if isinstance(s, ast.While):
+            return self.whileloop(s, rest, env, k)
         if isinstance(s, ast.For):
             return self.forloop(s, rest, env, k)
         raise Untranslatable("statement %s" % type(s).__name__)
+
+    def hoist_raising(self, s, env):
+        def raising_call(c):
+            if not (isinstance(c, ast.Call) and isinstance(c.func, ast.Attribute) and isinstance(c.func.value, ast.Name) and c.func.value.id == "self"):
+                return False
+            pr = self.procs.get(self.proc_key(c.func.attr))
+            return pr is not None and isinstance(pr["ret"], tuple) and pr["ret"][0] == "Except"
+        spot = None
+        if isinstance(s, ast.Assign) and isinstance(s.value, ast.List) and len(s.value.elts) == 1 and raising_call(s.value.elts[0]):
+            spot = ("list", s.value.elts[0])
+        elif isinstance(s, ast.Expr) and isinstance(s.value, ast.Call) and isinstance(s.value.func, ast.Attribute) and s.value.func.attr == "append" \
+                and len(s.value.args) == 1 and raising_call(s.value.args[0]):
+            spot = ("append", s.value.args[0])
+        if spot is None:
+            return None
+        tmp = env.fresh("_hoisted")
+        first = ast.copy_location(ast.Assign(targets=[ast.Name(id=tmp, ctx=ast.Store())], value=spot[1]), s)
+        name = ast.copy_location(ast.Name(id=tmp, ctx=ast.Load()), s)
+        if spot[0] == "list":
+            second = ast.copy_location(ast.Assign(targets=s.targets, value=ast.copy_location(ast.List(elts=[name], ctx=ast.Load()), s)), s)
+        else:
+            second = ast.copy_location(ast.Expr(value=ast.copy_location(ast.Call(func=s.value.func, args=[name], keywords=[]), s)), s)
+        return [first, second]
 
     def at_dest_level(self):
         """translating the body of a destination-writes variant itself (not one of its inner folds, whose result type is set while they are translated)"""
@@ -1434,11 +1531,16 @@ class Proc(object):
     def bind_raising(self, x, n, body, env, annot=None):
         """run the raising computation x, bind its value to n, go on with body.  In a destination-writes variant the function's result is what the destination has
         received when control leaves the function - normally OR through an exception: there the error case is the destination as it is now."""
+        if getattr(self, "try_handler", None):
+            ev, dispatch = self.try_handler
+            return "(match %s with\n| .ok %s => %s\n| .error %s => %s)" % (x, n if annot is None else "(%s : %s)" % (n, annot), body, ev, dispatch)
         if self.at_dest_level():
             return "(match %s with\n| .ok %s => %s\n| .error _ => %s)" % (x, n if annot is None else "(%s : %s)" % (n, annot), body, env.vars[self.spec["inout"]][0])
         return "(andThen %s fun %s =>\n%s)" % (x, n if annot is None else "(%s : %s)" % (n, annot), body)
 
     def may_bind(self, vty):
+        if getattr(self, "try_handler", None):
+            return True
         if self.at_dest_level():
             return vty[1] == self.spec.get("err")
         return self.ret[0] == "Except" and self.ret[1] == vty[1]
@@ -1538,6 +1640,49 @@ class Proc(object):
         ind = lambda t: "\n".join(("    " + l if i else l) for i, l in enumerate(t.split("\n")))
         self.aux.append("def %s%s : %s → %s\n  | [] => %s\n  | %s :: %s => %s\n" % (lname, sig, lty(xty), lty(self.ret), ind(nil_case), v, tail, ind(cons_case)))
         return "%s %s %s" % (lname, " ".join([n for n, _ in self.fixed] + [l for (_, l, _) in scope]), xs)
+
+    def whileloop(self, s, rest, env, k):
+        """`while n: <body>; n = n.<link>` - a walk along a chain of records linked by an optional field: a function recursive on the chain (well-founded on its size)"""
+        last = s.body[-1] if s.body else None
+        ok = isinstance(s.test, ast.Name) and not s.orelse and s.test.id in env.vars and isinstance(last, ast.Assign) and len(last.targets) == 1 \
+            and isinstance(last.targets[0], ast.Name) and last.targets[0].id == s.test.id and isinstance(last.value, ast.Attribute) \
+            and isinstance(last.value.value, ast.Name) and last.value.value.id == s.test.id and getattr(self, "_loop_depth", 0) == 0
+        if not ok:
+            raise Untranslatable("while loop shape")
+        var = s.test.id
+        vlean, vty = env.vars[var]
+        if not (isinstance(vty, tuple) and vty[0] == "Opt" and isinstance(vty[1], tuple) and vty[1][0] == "Rec"):
+            raise Untranslatable("while over %s" % (vty,))
+        fld = self.spec.get("records", {}).get(vty[1][1], {}).get(last.value.attr)
+        if not fld or fld[1] != vty:
+            raise Untranslatable("while: %s.%s is not a link of the chain" % (var, last.value.attr))
+        body_nodes = [n for st in s.body for n in ast.walk(st)]
+        if any(isinstance(n, (ast.For, ast.While, ast.Break, ast.Continue)) for n in body_nodes) or var in self.assigns(s.body[:-1]):
+            raise Untranslatable("while body shape")
+        self.loopn += 1
+        lname = "%s_loop%d" % (self.name, self.loopn)
+        scope = [(n, l, t) for n, (l, t) in sorted(env.vars.items()) if n != var]
+        if any(isinstance(t, tuple) and t[0] == "Assoc" for _, _, t in scope):
+            raise Untranslatable("look-up table in scope of a loop")
+        inner = Env(counter=env.counter)
+        pnames = []
+        for n, l, t in scope:
+            pn = "c_" + n.replace(".", "_")
+            inner.vars[n] = (pn, t)
+            pnames.append((pn, t))
+        x = "x_" + var
+        body_env = inner.bind(var, x, vty[1])
+
+        def recurse(en):
+            return "%s %s %s.%s" % (lname, " ".join([n for n, _ in self.fixed] + [en.vars[n][0] if en.vars[n][1] == t else self.coerce(en.vars[n][0], en.vars[n][1], t) for (n, _, t) in scope]), x, fld[0])
+        nil_case = self.block(rest, inner.bind(var, "none", vty), k_for_loop(self, k, env, inner))
+        cons_case = self.block(s.body[:-1], body_env, recurse)
+        fixed = "".join(" (%s : %s)" % (n, lty(t)) for n, t in self.fixed)
+        sig = fixed + "".join(" (%s : %s)" % (pn, lty(t)) for pn, t in pnames)
+        ind = lambda t: "\n".join(("    " + l if i else l) for i, l in enumerate(t.split("\n")))
+        self.aux.append("def %s%s : %s → %s\n  | none => %s\n  | some %s => %s\ntermination_by n => sizeOf n\ndecreasing_by all_goals (cases %s; simp; omega)\n"
+                        % (lname, sig, lty(vty), lty(self.ret), ind(nil_case), x, ind(cons_case), x))
+        return "%s %s %s" % (lname, " ".join([n for n, _ in self.fixed] + [l for (_, l, _) in scope]), vlean)
 
     def forloop_fold(self, s, rest, env, k, xs, xty, lname, raising=False):
         scope = [(n, l, t) for n, (l, t) in sorted(env.vars.items()) if not (isinstance(t, tuple) and t[0] == "Assoc") and n not in (set([s.target.id]) if isinstance(s.target, ast.Name) else set(t.id for t in s.target.elts))]
@@ -1669,6 +1814,14 @@ CP_REC = {"CpRec": {"tabulation": ("tabulation", ("Rec", "TabSec"))},
           "RCut": {"cutoff": ("cutoff", "Rat"), "nr": ("nr", "Int")},
           "RRhoCut": {"cutoff": ("cutoff", "Rat"), "nr": ("nr", "Int"), "cutoff_rho": ("cutoff_rho", "Rat"), "nrho": ("nrho", "Int")}}
 REG_REC = {"DefRec": {"signature": ("signature", ("Rec", "SigRec"))}, "SigRec": {"label": ("label", "Str")}, "TDefRec": {"name": ("name", "Str")}, "FuncObj": {}, "FormObj": {}}
+PFB_REC = {"PInst": {"has_modifier": ("isModifier", "Bool"), "modifier": ("name", "Str"), "potential_form": ("name", "Str"), "parameters": ("parameters", ("List", "Rat")),
+                     "potential_forms": ("potential_forms", ("List", ("Rec", "PInst"))), "start": ("start", ("Opt", ("Rec", "StartRec"))), "next": ("next", ("Opt", ("Rec", "PInst")))},
+           "StartRec": {"start": ("start", "Rat"), "range_type": ("range_type", "Str")}, "PfbSelf": {}, "ModFactory": {}, "FormFactory": {}, "PForm": {}, "MRDefn": {}, "PotFn": {},
+           "PairRow": {"species": ("species", ("Rec", "SpeciesRec")), "potential_form_instance": ("potential_form_instance", ("Rec", "PInst"))},
+           "SpeciesRec": {"species_a": ("species_a", "Str"), "species_b": ("species_b", "Str")}, "PotObj": {}}
+PFB_OPS = [("lookupModifier", ("Fun", [("Rec", "PfbSelf"), "Str"], ("Opt", ("Rec", "ModFactory")))), ("lookupForm", ("Fun", [("Rec", "PfbSelf"), "Str"], ("Opt", ("Rec", "FormFactory")))),
+           ("applyModifier", ("Fun", [("Rec", "ModFactory"), ("List", ("Rec", "PInst")), ("Rec", "PfbSelf")], ("Except", "PfbErr", ("Rec", "PForm")))),
+           ("applyForm", ("Fun", [("Rec", "FormFactory"), ("List", "Rat")], ("Except", "PfbErr", ("Rec", "PForm"))))]
 EBF = "config/_eam_potential_builder.py"
 EB_REC = {"EmbRow": {"species": ("species", "Str"), "potential_form_instance": ("pfi", ("Rec", "Pfi"))}, "Pfi": {},
           "CpEam": {"eam_embed": ("eam_embed", ("List", ("Rec", "EmbRow"))), "eam_density": ("eam_density", ("List", ("Rec", "EmbRow")))}, "FnRec": {}}
@@ -1886,6 +2039,37 @@ PROCS = [
          params=[("self._potential_forms", ("AssocL", "Str", ("Rec", "FormObj"))), ("regs", ("List", ("Prod", ("Rec", "FuncObj"), ("Rec", "FuncObj"))))],
          ret=("List", ("Prod", ("Rec", "FuncObj"), ("Rec", "FuncObj"))), records=REG_REC, effect_log={"register_function": "regs"},
          implicit=[("funcOf", ("Fun", [("Rec", "FormObj")], ("Rec", "FuncObj")))], attr_ops={("FormObj", "potential_function"): ("funcOf", ("Rec", "FuncObj"))}),
+    # ---- the form builder and the pair builder: from a parsed definition to the multi-range callable, from [Pair] rows to Potential objects
+    dict(name="pfb_make_tuple", file="config/_potential_form_builder.py", func="Potential_Form_Builder._make_multi_range_tuple",
+         params=[("self", ("Rec", "PfbSelf")), ("pform_instance", ("Rec", "PInst"))], ret=("Except", "PfbErr", ("Rec", "MRDefn")), records=PFB_REC, implicit=PFB_OPS,
+         try_subscripts={("PfbSelf", "modifier_registry"): ("lookupModifier", "Str", ("Rec", "ModFactory")), ("PfbSelf", "potential_form_registry"): ("lookupForm", "Str", ("Rec", "FormFactory"))},
+         methods={("ModFactory", "__call__"): ("applyModifier", [("List", ("Rec", "PInst")), ("Rec", "PfbSelf")], ("Except", "PfbErr", ("Rec", "PForm"))),
+                  ("FormFactory", "__call__"): ("applyForm", [("List", "Rat")], ("Except", "PfbErr", ("Rec", "PForm")))},
+         raises=[("UnknownModifierException(", "PfbErr.unknownModifier"), ("UnknownPotentialFormException(", "PfbErr.unknownForm")],
+         locals={"start": ("Opt", "Rat")}, neg_inf=("none", ("Opt", "Rat")), rec_constructors={"Multi_Range_Defn": ("MRDefn", ["Str", ("Opt", "Rat"), ("Rec", "PForm")])}),
+    dict(name="pfb_create", file="config/_potential_form_builder.py", func="Potential_Form_Builder.create_potential_function", drop_logging=True,
+         params=[("self", ("Rec", "PfbSelf")), ("potential_form_instance", ("Rec", "PInst"))], ret=("Except", "PfbErr", ("Rec", "PotFn")), records=PFB_REC,
+         implicit=PFB_OPS + [("mkMulti", ("Fun", [("List", ("Rec", "MRDefn"))], ("Except", "PfbErr", ("Rec", "PotFn"))))],
+         star_ops={"create_Multi_Range_Potential_Form": ("mkMulti", ("List", ("Rec", "MRDefn")), ("Except", "PfbErr", ("Rec", "PotFn")))}),
+    dict(name="pair_create_potential", file="config/_pair_potential_builder.py", func="Pair_Potentials_From_Tuples_Builder._create_potential", drop_logging=True,
+         params=[("potrow", ("Rec", "PairRow")), ("mrpfb", ("Rec", "PfbSelf"))], ret=("Except", "PfbErr", ("Rec", "PotObj")), records=PFB_REC,
+         implicit=PFB_OPS + [("mkMulti", ("Fun", [("List", ("Rec", "MRDefn"))], ("Except", "PfbErr", ("Rec", "PotFn"))))],
+         object_methods={("PfbSelf", "create_potential_function"): "pfb_create"}, rec_constructors={"Potential": ("PotObj", ["Str", "Str", ("Rec", "PotFn")])}),
+    dict(name="pair_init_potentials", file="config/_pair_potential_builder.py", func="Pair_Potentials_From_Tuples_Builder._init_potentials",
+         params=[("self.potential_tuples", ("List", ("Rec", "PairRow"))), ("self.potential_form_registry", "Nat"), ("self.modifier_registry", "Nat")],
+         ret=("Except", "PairErr", ("List", ("Rec", "PotObj"))), records=PFB_REC,
+         implicit=PFB_OPS + [("mkMulti", ("Fun", [("List", ("Rec", "MRDefn"))], ("Except", "PfbErr", ("Rec", "PotFn"))))],
+         rec_constructors={"Potential_Form_Builder": ("PfbSelf", ["Nat", "Nat"])}, locals={"pots": ("List", ("Rec", "PotObj"))},
+         exc_classes={"UnknownModifierException": "PfbErr.unknownModifier", "UnknownPotentialFormException": "PfbErr.unknownForm", "ConfigurationException": "*"},
+         class_bases=[("config/_potential_form_builder.py", "UnknownModifierException", "ConfigurationException"),
+                      ("config/_potential_form_builder.py", "UnknownPotentialFormException", "ConfigurationException")],
+         raises=[("Unknown modifier '", "PairErr.unknownModifier"), ("Unknown potential form '", "PairErr.unknownForm"), ("Problem defining", "PairErr.problemDefining")]),
+    dict(name="read_from_parser", file="config/_configuration.py", func="Configuration.read_from_parser", drop_logging=True, retype=["tabulation_target"],
+         params=[("self._tabulation_factories", ("AssocL", "Str", ("Rec", "FactoryObj"))), ("cp", ("Rec", "CpT"))], ret=("Except", "TargetErr", ("Rec", "TabulationObj")),
+         records={"CpT": {"tabulation": ("tabulation", ("Rec", "TabT"))}, "TabT": {"target": ("target", ("Opt", "Str"))}, "FactoryObj": {}, "TabulationObj": {}},
+         implicit=[("createTabulation", ("Fun", [("Rec", "FactoryObj"), ("Rec", "CpT")], ("Except", "TargetErr", ("Rec", "TabulationObj"))))],
+         methods={("FactoryObj", "create_tabulation"): ("createTabulation", [("Rec", "CpT")], ("Except", "TargetErr", ("Rec", "TabulationObj")))},
+         raises=[("unknown tabulation target specified", "TargetErr.unknownTarget")]),
     # ---- C13: species filter
     dict(name="check_tuple", file="config/_filtered_config_parser.py", func="FilteredConfigParser._check_tuple",
          params=[("self._self_species_list", ("List", "Str")), ("self._self_exclude_flag", "Bool"), ("check_tuple", ("List", "Str"))], ret="Bool"),
@@ -2302,6 +2486,66 @@ def setSymDiff {α : Type} [BEq α] (a b : List α) : List α := setDiff a b ++ 
 def odictSetDefault {κ β : Type} [BEq κ] (d : List (κ × β)) (k : κ) (v : β) : List (κ × β) :=
   if d.any (fun e => e.1 == k) then d else d ++ [(k, v)]
 
+/-- `>= 1.5` in front of a form instance -/
+structure StartRec where
+  range_type : String
+  start : Rat
+deriving Repr, DecidableEq
+/-- a parsed definition as the form builder receives it: a PotentialFormInstanceTuple (`isModifier = false`: label `name`, `parameters`) or a PotentialModifierTuple
+(`isModifier = true`: modifier `name`, argument definitions `potential_forms`), its optional range start and the definition of the next range -/
+structure PInst where
+  isModifier : Bool
+  name : String
+  parameters : List Rat
+  potential_forms : List PInst
+  start : Option StartRec
+  next : Option PInst
+deriving Repr
+/-- opaque: a parametrised potential form / what a modifier returns -/
+structure PForm where
+  id : Nat
+deriving Repr, DecidableEq
+structure ModFactory where
+  id : Nat
+deriving Repr, DecidableEq
+structure FormFactory where
+  id : Nat
+deriving Repr, DecidableEq
+/-- `Multi_Range_Defn(range_type, start, potential_form)`; `start = none` is -infinity -/
+structure MRDefn where
+  range_type : String
+  start : Option Rat
+  pform : PForm
+deriving Repr, DecidableEq
+/-- the Potential_Form_Builder object: its two registries (opaque) -/
+structure PfbSelf where
+  forms : Nat
+  modifiers : Nat
+deriving Repr, DecidableEq
+/-- errors of the form builder: all are ConfigurationExceptions; the two look-up failures have classes of their own -/
+inductive PfbErr where
+  | unknownModifier | unknownForm | config
+deriving DecidableEq, Repr
+structure PotFn where
+  id : Nat
+deriving Repr, DecidableEq
+structure SpeciesRec where
+  species_a : String
+  species_b : String
+deriving Repr, DecidableEq
+structure PairRow where
+  species : SpeciesRec
+  potential_form_instance : PInst
+deriving Repr
+structure PotObj where
+  a : String
+  b : String
+  fn : PotFn
+deriving Repr, DecidableEq
+inductive PairErr where
+  | unknownModifier | unknownForm | problemDefining
+deriving DecidableEq, Repr
+
 /-- a potential callable as the modifiers handle it: opaque -/
 structure FnObj2 where
   id : Nat
@@ -2316,6 +2560,23 @@ def orderedPairs {α : Type} (xs : List α) : List (α × α) :=
     if i = j then none else match xs[i]?, xs[j]? with
       | some a, some b => some (a, b)
       | _, _ => none
+
+/-- what `Configuration.read_from_parser` reads of the parser: `cp.tabulation.target` -/
+structure TabT where
+  target : Option String
+deriving Repr, DecidableEq
+structure CpT where
+  tabulation : TabT
+deriving Repr, DecidableEq
+structure FactoryObj where
+  id : Nat
+deriving Repr, DecidableEq
+structure TabulationObj where
+  id : Nat
+deriving Repr, DecidableEq
+inductive TargetErr where
+  | unknownTarget | factory
+deriving DecidableEq, Repr
 
 inductive SigErr where
   | sameVariable
@@ -2512,6 +2773,12 @@ def gen_logic(repo, outdir, summary, write_if_changed):
                 src = open(fp).read()
                 cache[fp] = (src, ast.parse(src))
             src, tree = cache[fp]
+            for cfile, cname, base in spec.get("class_bases", []):
+                # the exception classes the handlers name: each is declared with the stated base class (so that the order of the handlers means what exc_classes says)
+                ctree = ast.parse(open(os.path.join(repo, "atsim/potentials", cfile)).read())
+                cd = next((n for n in ctree.body if isinstance(n, ast.ClassDef) and n.name == cname), None)
+                if cd is None or [ast.unparse(b) for b in cd.bases] != [base]:
+                    raise Untranslatable("class %s(%s) not found in %s" % (cname, base, cfile))
             for kname, cmpf in spec.get("sort_keys", {}).items():
                 ok = any(isinstance(n, ast.Assign) and len(n.targets) == 1 and isinstance(n.targets[0], ast.Name) and n.targets[0].id == kname
                          and ast.unparse(n.value).replace(" ", "") == "functools.cmp_to_key(%s)" % cmpf for n in tree.body)
